@@ -58,6 +58,9 @@ CHECKS = {
     "C08": ("fault_enumeration", "virtual-time reference retry model vs transmissions counted by the simulated device; fault-sequence enumeration with a recovery oracle at LAN and device level",
             "All answer-delay patterns for retry budgets 1..4 on V2 and V3, every single fault and ordered pair (thorough: triple) of faults across connect/handshake/data phases, cancellation instants on a 0.1 s grid.",
             "Timing verdicts on virtual time only; scripted delays never coincide with a timeout instant.", "DESIGN.md section 2 C08"),
+    "C16": ("exploration", "client/device reference model over setter/apply/refresh histories: 0xB0 bodies captured by the simulated device vs changed-set, advertised id and vendor value encoding; read-back and breeze-exclusivity invariants",
+            "All histories of depth <= 2 (quick) / <= 3 (thorough) over a per-profile alphabet for 12 capability profiles (breeze-control vs legacy both/away/breezeless/none, 2-/5-level/no rate select, iECO, swing angles, self clean), plus random histories up to length 20 over all enum values.",
+            "The simulated legacy device keeps breeze-away and breezeless mutually exclusive; a setting changed before an intervening refresh may or may not be transmitted.", "DESIGN.md section 2 C16"),
 }
 
 NOT_YET = "check not built yet in this round (planned in DESIGN.md section 2)"
